@@ -1,6 +1,7 @@
 import MjProof.Model.Broadphase
 import MjProof.Props.C22
 import Mathlib.Data.List.Nodup
+import Mathlib.Data.List.ProdSigma
 /-
 Helper lemmas for C14: order facts on duplicate-free lists, the sweep invariant of `mj_SAP`, and the link
 between positions in the stably sorted endpoint list and endpoint values.
@@ -647,6 +648,69 @@ theorem sapPairs_once {cmp : K → K → Int} (hc : TotalPreorder cmp) (gt : β 
   have h2' : e' = a := eq_of_key_eq hkS (mem' (by simp)) (mem (by simp)) (by simp [EP.key, hemin', hamin, hej', hai])
   subst h1'; subst h2'
   exact bef_asymm hn ⟨A, B, C, hS⟩ ⟨A', B', C', hS'⟩
+
+/-- **counting**: `n` boxes yield at most `n (n-1) / 2` pairs, so the buffer `mj_broadphase` passes to `mj_SAP`
+    (`maxsappair = ncollide (ncollide-1) / 2`) is never exceeded -/
+theorem sapPairs_length_le {cmp : K → K → Int} (hc : TotalPreorder cmp) (gt : β → β → Bool)
+    {boxes : List (Box ι K β)} (hid : (boxes.map (·.id)).Nodup) :
+    (sapPairs cmp gt boxes).length ≤ boxes.length * (boxes.length - 1) / 2 := by
+  obtain ⟨hnd, hanti⟩ := sapPairs_once hc gt hid
+  have hsound := fun i j (h : (i, j) ∈ sapPairs cmp gt boxes) => sapPairs_sound hc gt hid h
+  obtain ⟨out, hout⟩ : ∃ o, o = sapPairs cmp gt boxes := ⟨_, rfl⟩
+  rw [← hout] at hnd hanti hsound ⊢
+  obtain ⟨ids, hids⟩ : ∃ l, l = boxes.map (·.id) := ⟨_, rfl⟩
+  rw [← hids] at hid
+  have hlen : ids.length = boxes.length := by rw [hids, length_map]
+  -- out ++ swapped out ++ diagonal is a duplicate-free sublist of ids × ids
+  have hbig : (out ++ out.map Prod.swap ++ ids.map (fun i => (i, i))).Nodup := by
+    rw [nodup_append, nodup_append]
+    refine ⟨⟨hnd, ?_, ?_⟩, ?_, ?_⟩
+    · exact hnd.map (fun a b h => by have := congrArg Prod.swap h; simpa using this)
+    · intro p hp q hq hpq
+      subst hpq
+      obtain ⟨r, hr, hrs⟩ := mem_map.mp hq
+      have : r = p.swap := by rw [← hrs]; simp
+      subst this
+      exact hanti p.1 p.2 (by cases p; exact hp) (by cases p; exact hr)
+    · exact hid.map (fun a b h => (Prod.mk.inj h).1)
+    · intro p hp q hq hpq
+      subst hpq
+      obtain ⟨i, _, rfl⟩ := mem_map.mp hq
+      rcases mem_append.mp hp with h | h
+      · obtain ⟨_, _, _, _, _, _, hne⟩ := hsound i i h
+        exact hne rfl
+      · obtain ⟨r, hr, hrs⟩ := mem_map.mp h
+        have : r = (i, i) := by
+          have := congrArg Prod.swap hrs; simpa using this
+        subst this
+        obtain ⟨_, _, _, _, _, _, hne⟩ := hsound i i hr
+        exact hne rfl
+  have hsub : (out ++ out.map Prod.swap ++ ids.map (fun i => (i, i))) ⊆ ids ×ˢ ids := by
+    intro p hp
+    have hm : ∀ i j, (i, j) ∈ out → i ∈ ids ∧ j ∈ ids := by
+      intro i j h
+      obtain ⟨bi, hbi, bj, hbj, h1, h2, _⟩ := hsound i j h
+      exact ⟨hids ▸ h1 ▸ mem_map_of_mem hbi, hids ▸ h2 ▸ mem_map_of_mem hbj⟩
+    rcases mem_append.mp hp with h | h
+    · rcases mem_append.mp h with h | h
+      · exact mem_product.mpr (hm p.1 p.2 (by simpa using h))
+      · obtain ⟨r, hr, rfl⟩ := mem_map.mp h
+        have := hm r.1 r.2 (by simpa using hr)
+        exact mem_product.mpr ⟨this.2, this.1⟩
+    · obtain ⟨i, hi, rfl⟩ := mem_map.mp h
+      exact mem_product.mpr ⟨hi, hi⟩
+  have hle := hbig.length_le_of_subset hsub
+  rw [length_product, length_append, length_append, length_map, length_map, hlen] at hle
+  -- 2 |out| + n ≤ n²
+  have h2 : 2 * out.length ≤ boxes.length * (boxes.length - 1) := by
+    cases hn : boxes.length with
+    | zero => rw [hn] at hle; omega
+    | succ m =>
+      rw [hn] at hle
+      have : (m + 1) * (m + 1) = (m + 1) * m + (m + 1) := Nat.mul_succ (m + 1) m
+      simp only [Nat.add_sub_cancel]
+      omega
+  exact (Nat.le_div_iff_mul_le (by decide : 0 < 2)).mpr (by omega)
 
 end sap
 
